@@ -134,15 +134,23 @@ func GenMacroDoc(t *rapid.T) string {
 }
 
 // SizeStress returns a few large inputs (nesting, long line, many directives).
+// The sizes keep the typical cost well under the hang limit: the library is
+// quadratic in the nesting depth and in the number of user types (measured:
+// 4000 one-line types take 34 s, 5000 nested brackets 6 s).
 func SizeStress(thorough bool) []string {
-	n := 2000
+	nest, ntypes, long := 1500, 400, 100000
 	if thorough {
-		n = 20000
+		nest, ntypes, long = 4000, 1500, 1000000
 	}
 	var many strings.Builder
 	many.WriteString("JSIGHT 0.3\n")
-	for i := 0; i < n/2; i++ {
+	for i := 0; i < ntypes; i++ {
 		fmt.Fprintf(&many, "TYPE @t%d\n{\"a\": %d}\n", i, i)
+	}
+	var methods strings.Builder
+	methods.WriteString("JSIGHT 0.3\n")
+	for i := 0; i < ntypes; i++ {
+		fmt.Fprintf(&methods, "GET /p%d/{id}\n  200 any\n", i)
 	}
 	var chain strings.Builder
 	chain.WriteString("JSIGHT 0.3\n")
@@ -151,18 +159,20 @@ func SizeStress(thorough bool) []string {
 	}
 	chain.WriteString("MACRO @m300\n(\n  TYPE @t\n  {}\n)\nPASTE @m0\n")
 	return []string{
-		"JSIGHT 0.3\nTYPE @a\n" + strings.Repeat("[", n) + strings.Repeat("]", n),
-		"JSIGHT 0.3\nTYPE @a\n" + strings.Repeat("{\"a\":", n) + "1" + strings.Repeat("}", n),
-		"JSIGHT 0.3\nTYPE @a\n" + strings.Repeat("[", n),
-		"JSIGHT 0.3\nINFO\n  Title \"" + strings.Repeat("x", 50*n) + "\"\n",
-		"JSIGHT 0.3\nGET /a // " + strings.Repeat("y ", 20*n) + "\n  200 any\n",
-		"JSIGHT 0.3\nGET /a\n  Description\n" + strings.Repeat("    line of text\n", n) + "  200 any\n",
+		"JSIGHT 0.3\nTYPE @a\n" + strings.Repeat("[", nest) + strings.Repeat("]", nest),
+		"JSIGHT 0.3\nTYPE @a\n" + strings.Repeat("{\"a\":", nest) + "1" + strings.Repeat("}", nest),
+		"JSIGHT 0.3\nTYPE @a\n" + strings.Repeat("[", 20*nest),
+		"JSIGHT 0.3\nINFO\n  Title \"" + strings.Repeat("x", long) + "\"\n",
+		"JSIGHT 0.3\nGET /a // " + strings.Repeat("y ", long/2) + "\n  200 any\n",
+		"JSIGHT 0.3\nGET /a\n  Description\n" + strings.Repeat("    line of text\n", long/20) + "  200 any\n",
 		many.String(),
+		methods.String(),
 		chain.String(),
-		"JSIGHT 0.3\n" + strings.Repeat("(", n),
-		"JSIGHT 0.3\nURL /a\n" + strings.Repeat("(\n", 1) + strings.Repeat("GET\n(\n200 any\n(\n)\n)\n", 1) + ")\n",
-		"JSIGHT 0.3\nTYPE @a regex\n/" + strings.Repeat("(a|b)*", n/10) + "/\n",
-		strings.Repeat("#", 10*n),
-		strings.Repeat("\n", 10*n) + "JSIGHT 0.3",
+		"JSIGHT 0.3\n" + strings.Repeat("(", long),
+		"JSIGHT 0.3\nURL /a\n(\n" + strings.Repeat("GET\n(\n200 any\n(\n)\n)\n", 1) + ")\n",
+		"JSIGHT 0.3\nTYPE @a regex\n/" + strings.Repeat("(a|b)*", 300) + "/\n",
+		strings.Repeat("#", long),
+		strings.Repeat("\n", long) + "JSIGHT 0.3",
+		"JSIGHT 0.3\nTYPE @a\n" + strings.Repeat("[", 5200) + strings.Repeat("]", 5200),
 	}
 }
